@@ -46,7 +46,10 @@ OPS = ("update", "update2", "oracle", "oracle2", "oracle_badcols", "reset")
 
 
 class Clf:
+    seen = []  # column labels of every frame handed to predict (argument obligation at the confirmation step)
+
     def predict(self, X):
+        Clf.seen.append(list(X.columns) if hasattr(X, "columns") else None)
         return np.zeros(len(X))
 
     def fit(self, X, y):
@@ -74,6 +77,7 @@ def body_protocol(ctx, length, first_ops, explicit_len):
         cur().assume_unchecked(between(0, s, 1))
         return s
 
+    del Clf.seen[:]
     d = M.MD3(Clf(), margin_calculation_function=margin, sensitivity=sens, k=2, oracle_data_length_required=L0)
 
     def fake_stats(data):
@@ -118,7 +122,12 @@ def body_protocol(ctx, length, first_ops, explicit_len):
                 elif op == "update2":
                     d.update(pd.DataFrame({"f1": [0.5, 0.6], "f2": [1.5, 1.6]}))
                 elif op == "oracle":
-                    d.give_oracle_label(pd.DataFrame({"f1": [0.5 + step], "f2": [1.5], "y": [1]}))
+                    # the labelled sample may list its columns in any order (names are compared as a set)
+                    if bool(ctx.bool(f"oracle_columns_permuted{step}")):
+                        d.give_oracle_label(pd.DataFrame({"f2": [1.5], "y": [1], "f1": [0.5 + step]}))
+                        ctx.witness("permuted-oracle-columns")
+                    else:
+                        d.give_oracle_label(pd.DataFrame({"f1": [0.5 + step], "f2": [1.5], "y": [1]}))
                 elif op == "oracle2":
                     d.give_oracle_label(pd.DataFrame({"f1": [0.5, 0.6], "f2": [1.5, 1.6], "y": [1, 0]}))
                 elif op == "reset":
@@ -171,6 +180,9 @@ def body_protocol(ctx, length, first_ops, explicit_len):
                 ctx.prove(iff(finished, done), "confirmation-after-exactly-the-required-labels")
                 if finished:
                     acc = fake_acc.last
+                    # the classifier is asked about the oracle rows with the features in the order it was trained on
+                    ctx.prove(bool(Clf.seen) and Clf.seen[-1] == list(before_frames["reference_batch_features"].columns),
+                              "classifier-gets-the-oracle-features-in-reference-order")
                     drift = S["acc_ref"] - acc > sens * S["acc_std"]
                     ctx.prove(iff(state_is(d.drift_state, "drift"), drift), "drift-iff-accuracy-drop")
                     ctx.prove(d.drift_state is None or d.drift_state == "drift", "oracle-verdict-domain")
@@ -250,6 +262,7 @@ def body_summary(ctx, folds, via):
         rec["margin"].append((i, type(clf).__name__))
         return sig[i]
 
+    del Clf.seen[:]
     d = M.MD3(Clf(), margin_calculation_function=margin, sensitivity=ctx.real("sensitivity"), k=k)
     ref = pd.DataFrame({"row": list(range(n)), "f2": [float(i % 2) for i in range(n)], "y": [i % 2 for i in range(n)]})
     shim = stubs.NpShim()
